@@ -21,6 +21,7 @@ type vpPipeEnd struct {
 	rpos   *int
 	starve func()
 	closed bool
+	chunk  int // > 0: the transport delivers at most chunk bytes per Read (TCP segmentation)
 }
 
 func vpPipe() (a, b *vpPipeEnd) {
@@ -42,6 +43,9 @@ func (p *vpPipeEnd) Read(b []byte) (int, error) {
 	}
 	if *p.rpos >= len(*p.in) {
 		return 0, io.EOF
+	}
+	if p.chunk > 0 && len(b) > p.chunk {
+		b = b[:p.chunk]
 	}
 	n := copy(b, (*p.in)[*p.rpos:])
 	*p.rpos += n
@@ -89,7 +93,14 @@ func vpSetupNative() {
 // compression, delivers every packet intact and in order (C10); Conn applies
 // its threshold to both directions (C07).
 func vpConnPair(encrypt bool, threshold int) (a, b *Conn) {
+	return vpConnPairChunk(encrypt, threshold, 0)
+}
+
+// vpConnPairChunk: as vpConnPair over a transport that delivers at most chunk
+// bytes per Read in both directions (0: everything available).
+func vpConnPairChunk(encrypt bool, threshold, chunk int) (a, b *Conn) {
 	pa, pb := vpPipe()
+	pa.chunk, pb.chunk = chunk, chunk
 	a, b = WrapConn(pa), WrapConn(pb)
 	if encrypt {
 		iv := vp.Bytes(16)
